@@ -194,6 +194,7 @@ type Case struct {
 	Where    *Where    `json:"where,omitempty"`
 	Cap      int       `json:"cap"`  // WithAnalyticMaxPartitions; 0 = option not set
 	Rows     []gen.Row `json:"rows"` // id, k1, k2, v, w, s
+	Pace     []int     `json:"pace,omitempty"` // asynchronous producer: per row 0 none, 1 Gosched, 2 100µs pause
 }
 
 const waAlias = "wa"
@@ -506,6 +507,11 @@ func genCase(t *rapid.T) Case {
 		r["w"] = dataVal(t, "w", allowMissing)
 		r["s"] = strVal(t, "s", allowMissing)
 		c.Rows = append(c.Rows, r)
+	}
+	if rapid.IntRange(0, 3).Draw(t, "paced") == 0 {
+		for range c.Rows {
+			c.Pace = append(c.Pace, rapid.SampledFrom([]int{0, 0, 1, 1, 2}).Draw(t, "pace"))
+		}
 	}
 	// cap: unset | comfortably / exactly within | below the live partition count
 	live := maxLive(c)
